@@ -25,8 +25,12 @@ static mut REFS: bool = false;
 static mut FIND_SOME: bool = false;
 static mut NEW_OK: bool = false;
 
+static mut MAY_FAIL: bool = false;
+
 fn stub_new(pid: Pid, _t: Duration, auxv: AuxvDumpInfo, _e: impl WriteErrorList<InitError>) -> std::result::Result<PtraceDumper, InitError> {
-    if kani::any() { return Err(InitError::CannotPtraceSameProcess); }
+    // failure paths are explored by the fresh-writer harness only (dropping symbolic error values is what
+    // makes CBMC slow: the reused-writer harness keeps every callee on its success path)
+    if unsafe { MAY_FAIL } && kani::any() { return Err(InitError::CannotPtraceSameProcess); }
     let mut threads = Vec::new();
     if kani::any() { threads.push(crate::linux::ptrace_dumper::Thread { tid: pid, name: None }); }
     let mut d = crate::linux::ptrace_dumper::__verif_ptrace_dumper::bare_dumper(threads, Vec::new());
@@ -81,7 +85,7 @@ fn stub_generate<W: Write + Seek>(
         assert!(soft_errors.iter().any(|e| matches!(e, WriterError::PrincipalMappingNotReferenced)));     // [C20]
     }
     core::mem::forget(soft_errors);
-    if kani::any() { Ok(()) } else { Err(WriterError::PrincipalMappingNotReferenced) }
+    if unsafe { MAY_FAIL } && kani::any() { Err(WriterError::PrincipalMappingNotReferenced) } else { Ok(()) }
 }
 
 fn any_loc() -> MDLocationDescriptor { MDLocationDescriptor { data_size: kani::any(), rva: kani::any() } }
@@ -148,7 +152,7 @@ dump_stubs! {
         let mut w = MinidumpWriter::new(kani::any(), kani::any());
         w.skip_stacks_if_mapping_unreferenced = kani::any();
         w.sanitize_stack = kani::any();
-        unsafe { REFS = kani::any(); }
+        unsafe { REFS = kani::any(); MAY_FAIL = true; }
         let mut dest = std::io::Cursor::new(Vec::<u8>::new());
         let r = w.dump(&mut dest);
         check_after_dump();
